@@ -150,7 +150,7 @@ def h_apply_symcredit(E, grades_idx):
     return [str(e['ok']) for e in il] + [NOTE in r['overall_message']]
 
 
-def h_apply_list(E, credit_idx, n, ordered):
+def h_apply_list(E, credit_idx, n, ordered, debug=False):
     """list result, symbolic base grades, palette schedule value"""
     import mitxgraders.baseclasses as B
     from mitxgraders import ListGrader
@@ -159,7 +159,7 @@ def h_apply_list(E, credit_idx, n, ordered):
     T = {(e, s): E.real('g_%s_%s' % (e, s), 0, 1) for e in exps for s in stus}
     TG = make_table_grader(T)
     c = CREDITS[credit_idx]
-    g = ListGrader(answers=list(exps), subgraders=TG(), ordered=ordered, attempt_based_credit=lambda k: c)
+    g = ListGrader(answers=list(exps), subgraders=TG(), ordered=ordered, attempt_based_credit=lambda k: c, debug=debug)
     a = E.int('attempt', -2, 5)
     with shadow(B, float=sym_float):
         r = g(None, list(stus), attempt=a)
@@ -238,6 +238,8 @@ def harnesses(tier):
     for ci in (0, 2, 4, 6):
         add(h_apply_list, 'apply_list', dict(credit=ci, n=2, ordered=False), 'symbolic grades in [0,1], attempt in [-2,5]')
     add(h_apply_list, 'apply_list', dict(credit=2, n=3, ordered=True), 'symbolic grades in [0,1], attempt in [-2,5]')
+    for ci in (1, 2):
+        add(h_apply_list, 'apply_list', dict(credit=ci, n=2, ordered=True, debug=True), 'debug log switched on: the note survives next to the log')
     for kind in ('single', 'list'):
         add(h_missing_attempt, 'missing_attempt', dict(kind=kind), 'no attempt passed')
     for sn in ('linear', 'geometric', 'reciprocal'):
